@@ -14,6 +14,7 @@ tvars == <<l, cur>>
 IsEv(name) == l <= Len(T) /\ E.e = name /\ l' = l + 1
 
 TLog   == IsEv("Log") /\ ProtocolOK(E.ops) /\ cur' = E
+          /\ (("ro" \in DOMAIN E /\ E.ro) => ReadOnlyOK(E.ops) /\ E.old = E.new)
 TCrash == /\ IsEv("Crash") /\ cur # <<>> /\ E.scenario = cur.scenario
           /\ LET v == Verdict(cur.ops, E.k, ToSet(cur.newfiles), cur.old, cur.new, E.rec) IN
              /\ v = "ok" \/ v \in Dev
